@@ -180,12 +180,48 @@ def check_read(ctx, rep, cls_qual):
                "a socket.timeout while reading reaches close()/raise: a healthy connection whose peer is merely slow for longer "
                "than the socket timeout is torn down in the middle of a packet", ctx.loc(recvs[0]),
                witness=ctx.path(wit) if wit else None)
-        retry = [h for h in A.walk(loop) if isinstance(h, _ast.ExceptHandler) and any(
-            isinstance(i, _ast.If) and "retry_errnos" in A.src(i.test) and any(isinstance(x, _ast.Continue) for x in A.walk(i))
-            for i in A.walk(h))]
-        rep.ob("R05.1", "%s.read: would-block conditions (EAGAIN/EWOULDBLOCK) are retried" % short, bool(retry),
-               "`if get_exc_errno(ex) in retry_errnos: continue`" if retry else
-               "EAGAIN/EWOULDBLOCK while reading is treated as a failure (stream closed mid-packet)", ctx.loc(loop), kind="site")
+        # would-block: an OSError whose errno is in retry_errnos (partial evaluation: the membership test is true, the
+        # exception is not a timeout) must lead back to the loop head without close()/raise
+        def os_raises(node_ast, kind):
+            if node_ast is None or kind in ("with_exit", "except", "with_enter"):
+                return set()
+            if isinstance(node_ast, _ast.Raise):
+                return None
+            if any(c is rc for rc in recvs for c in A.calls(node_ast)):
+                return {BlockingIOError}
+            return set()
+        go = ctx.cfg(f, raises=os_raises)
+        rn2 = [n for n in go.live if n.ast is not None and n.kind == "stmt" and any(c is recvs[0] for c in A.calls(n.ast))]
+        heads2 = {n.id for n in go.live if n.kind in ("test", "join") and getattr(n, "owner", None) is loop}
+        stops2 = {n.id for n in go.live if n.ast is not None and n.kind == "stmt" and (
+            A.find_calls(n.ast, "self.close") or isinstance(n.ast, _ast.Raise))} | {go.exit.id}
+        inst = K.exc_instance_decider(go, BlockingIOError)
+
+        def dec(node):
+            e = node.ast
+            if isinstance(e, _ast.Compare) and len(e.ops) == 1 and isinstance(e.ops[0], _ast.In) and \
+                    "retry_errnos" in A.src(e.comparators[0]):
+                return True
+            return inst(node)
+        vok2 = Q.valuation_edges(dec)
+        okw = bool(rn2)
+        witw = None
+        for n in rn2:
+            for t, l in n.succ:
+                if l != "exc":
+                    continue
+                if t is go.excexit:
+                    okw, witw = False, [n, t]
+                    continue
+                pth = Q.find_path_ef([t], lambda x: x.id in stops2,
+                                     lambda a, b, l: l != "exc" and vok2(a, b, l) and b.id not in heads2, skip_first=False)
+                back = Q.find_path_ef([t], lambda x: x.id in heads2, lambda a, b, l: l != "exc" and vok2(a, b, l), skip_first=False)
+                if pth is not None or back is None:
+                    okw, witw = False, [n] + (pth or [t])
+        rep.ob("R05.1", "%s.read: would-block conditions (EAGAIN/EWOULDBLOCK) are retried" % short, okw,
+               "an OSError whose errno is in retry_errnos leads straight back to the loop" if okw else
+               "EAGAIN/EWOULDBLOCK while reading is treated as a failure (stream closed mid-packet)", ctx.loc(loop),
+               witness=ctx.path(witw) if witw else None)
     # the result is the concatenation of the accumulator
     rets = [n for n in A.walk(fn) if isinstance(n, ast.Return) and n.value is not None]
     okj = False
@@ -231,6 +267,12 @@ def check_write(ctx, rep, cls_qual):
             rep.ob("R05.2", "%s.write: the number of bytes the OS accepted is kept" % short, True,
                    "`%s`" % A.norm(st), ctx.loc(sc))
             chunk = sc.args[-1] if sc.args else None
+            if isinstance(chunk, ast.Name) and chunk.id != dat and loop is not None:
+                cname = chunk.id
+                for n in A.walk(loop):
+                    if isinstance(n, ast.Assign) and isinstance(n.targets[0], ast.Name) and n.targets[0].id == cname:
+                        chunk = n.value
+                        break
             okc = (isinstance(chunk, ast.Name) and chunk.id == dat) or (
                 isinstance(chunk, ast.Subscript) and isinstance(chunk.value, ast.Name) and chunk.value.id == dat
                 and isinstance(chunk.slice, ast.Slice) and chunk.slice.lower is None and chunk.slice.step is None)
@@ -307,11 +349,16 @@ def check_failure(ctx, rep, cls_qual, f, g, what):
         rep.ob("R05.3", "%s.%s: `except %s` surfaces as EOFError" % (short, what, tname), oke,
                "raises %s" % sorted(k.__name__ for k in raised) if oke else
                "the handler raises %s instead of EOFError" % sorted(k.__name__ for k in raised), ctx.loc(h))
-        if falls and not conts:
+        # a handler that hands control back to the loop head (by `continue` or by falling off the end of the loop body) retries;
+        # one that reaches the function's normal exit without going through a loop head swallows the failure
+        head_ids = {x.id for x in loops}
+        swallow = Q.find_path_ef([h], lambda x: x is g.exit, lambda a, b, l: l != "exc" and b.id not in head_ids)
+        retries = falls and swallow is None and any(x.id in head_ids for x in r)
+        if falls and not retries:
             rep.ob("R05.3", "%s.%s: `except %s` does not swallow the failure" % (short, what, tname), False,
                    "the handler can fall through to a normal return: the caller gets a shortened packet / believes the write "
-                   "completed", ctx.loc(h))
-        elif falls and conts:
+                   "completed", ctx.loc(h), witness=ctx.path(swallow) if swallow else None)
+        elif retries:
             # continue re-enters the loop: only legitimate for transient conditions
             rep.ob("R05.3", "%s.%s: `except %s` retries" % (short, what, tname), True,
                    "handler continues the loop (transient condition); byte accounting untouched (R05.1)", ctx.loc(h),
